@@ -433,7 +433,7 @@ class Evaluator:
             e[p] = ("sym", p)
         if args:
             e.update(args)
-        self._loop_counter = 0
+        self._loop_counter = getattr(self, "_loop_base", 0)
         out = self._block(fnode.body, e, (), res)
         res.env = out
         return res
@@ -1477,9 +1477,13 @@ class Evaluator:
                     binding[p] = sub_ev._e(defaults[p], dict(menv), (), Result())
                 else:
                     return None
+        sub_ev._loop_base = self._loop_counter          # loop ids stay unique across inlined bodies
         r = sub_ev.run(fnode, env=env, args=binding)
+        self._loop_counter = max(self._loop_counter, sub_ev._loop_counter)
         if r.yields:
             return None
+        if res is not None:
+            res.loops.extend(r.loops)
         if out_env is not None and r.env is not None:
             out_env.update(r.env)
         if res is not None:
